@@ -107,11 +107,11 @@ def gen_cases(ctx):
                             train=[dict(kind="probe", weight="1", model=0, c=["1"])], val=[], N=2, sanity=False, val_every=0,
                             opt=dict(kind="sgd", lr="1/4", momentum="0", dampening="0", wd="0", step_size=0, gamma="1", freq=1))))
     cases[-1].update(ck_interval=1, N=2)
-    for _ in range(ctx.scale(14, 140)):
+    for _ in range(ctx.scale(30, 300)):
         cases.append(dress(c07.tame(c07.gen_case_rat(rng))))
-    for _ in range(ctx.scale(6, 60)):
+    for _ in range(ctx.scale(12, 120)):
         cases.append(dress(c07.tame(c07.probe_case(rng))))
-    for _ in range(ctx.scale(8, 80)):
+    for _ in range(ctx.scale(16, 160)):
         cases.append(dress(c07.gen_case_torch(rng)))
     return cases
 
@@ -270,10 +270,14 @@ def judge_files(rep, case, B, rec, obs, tmp, lines, todo):
     checked = [b for b in range(1, N) if J > 0 and (b - 1) % J == 0]
     held = None
     if "min_loss" in loaded:
-        held = [b for b in sorted(obs["states"]) if same_state(loaded["min_loss"], obs["states"][b])]
-        if not [b for b in held if b in checked]:
-            rep.fail(f"the minimal-loss weight file holds the weights of none of the checked steps {checked} "
-                     f"(it equals the model at the start of batches {held})", case)
+        states = dict(obs["states"]); states[len(rec["tens"]) - 1] = obs["end"]
+        held = [b for b in sorted(states) if same_state(loaded["min_loss"], states[b])]
+        if not held:
+            rep.fail("the minimal-loss weight file holds the weights of none of the steps of the run "
+                     f"(checked batches: {checked})", case,
+                     detail=dict(file={k: v.tolist() for k, v in loaded["min_loss"].items()}))
+        elif not [b for b in held if b in checked]:
+            rep.disagree("minimal-loss file: model checks batches with (b-1) % interval == 0", case, held, checked)
     if case["channel"] == "rat":
         lines.append(files_request(case)); todo.append(("files", case, rec, present, held, checked))
 
